@@ -393,6 +393,20 @@ func (e *c19Env) runCase(c c19Case) *c19Result {
 		}
 		input = filepath.Join(dir, "FitSDKRelease_"+c.Ver+".zip")
 		wb = z
+	case "zip-sdk", "zip-othername":
+		// a zip whose name does not spell the version, together with -sdk: the flag provides / overrides it
+		z, err := wrapInSDKZip(wb)
+		if err != nil {
+			res.infraErr = err.Error()
+			return res
+		}
+		name := "fitsdk.zip"
+		if c.Input == "zip-othername" {
+			name = "FitSDKRelease_19.99.00.zip"
+		}
+		input = filepath.Join(dir, name)
+		args = []string{"-sdk", c.Ver}
+		wb = z
 	default:
 		input = filepath.Join(dir, "Profile.xlsx")
 		args = []string{"-sdk", c.Ver}
@@ -859,6 +873,16 @@ func runC19(args []string) int {
 				sort.Ints(lines)
 				cases = append(cases, c19Case{Ver: v, Input: "xlsx", Blanked: lines, Label: "single-message"})
 			}
+		}
+	}
+
+	// zip inputs whose file name does not give the version, with -sdk
+	if o.replay == "" {
+		for i, v := range c19Versions {
+			if o.tier != "thorough" && i != int(o.seed)%len(c19Versions) && v != "21.40" {
+				continue
+			}
+			cases = append(cases, c19Case{Ver: v, Input: "zip-sdk", Label: "zip-with-sdk-flag"}, c19Case{Ver: v, Input: "zip-othername", Label: "zip-with-sdk-flag"})
 		}
 	}
 
